@@ -276,8 +276,9 @@ type shapeM struct {
 }
 
 type cfgM struct {
-	shapes []*shapeM
-	epoch  int
+	shapes  []*shapeM
+	epoch   int
+	latency int64 // ms, of connections accepted under this configuration
 }
 
 func (m *cfgM) byPat(pat int) *shapeM {
@@ -300,7 +301,7 @@ func count(n int64) int64 {
 }
 
 func buildModel(c Config, epoch int) *cfgM {
-	m := &cfgM{epoch: epoch}
+	m := &cfgM{epoch: epoch, latency: c.Latency}
 	for _, s := range c.Shapes {
 		sm := &shapeM{pat: s.Pat, regex: s.regex(), maxbw: s.MaxBW}
 		for _, h := range s.Halts {
@@ -345,4 +346,14 @@ func (s *shapeM) throttleSeconds(from, to int64) float64 {
 		}
 	}
 	return total
+}
+
+// throttleAt is the throttle a body offset lies in, if any.
+func (s *shapeM) throttleAt(off int64) (bw int64, ok bool) {
+	for _, t := range s.thrs {
+		if off >= t.a && off < t.b {
+			return t.bw, true
+		}
+	}
+	return 0, false
 }
